@@ -326,6 +326,22 @@ func (p *prover) resolve(v ssa.Value) ssa.Value {
 			v = r
 			continue
 		}
+		// a load of a once-assigned variable (one that a closure captures, so that it lives in a cell) is the value
+		// assigned, when that value belongs to this function
+		if u, ok := v.(*ssa.UnOp); ok && u.Op == token.MUL {
+			if al, isAl := u.X.(*ssa.Alloc); isAl {
+				if cv := cellValue(al); cv != nil {
+					if ci, isI := cv.(ssa.Instruction); isI && ci.Parent() == p.fn {
+						v = cv
+						continue
+					}
+					if cp, isP := cv.(*ssa.Parameter); isP && cp.Parent() == p.fn {
+						v = cv
+						continue
+					}
+				}
+			}
+		}
 		break
 	}
 	return v
@@ -805,8 +821,24 @@ func (p *prover) indexTerms() *termIndex {
 			return
 		}
 		rv := p.resolve(v)
+		// a load of a once-assigned variable that a closure captures IS the value assigned (the canonical name says
+		// so already): index the value itself, so that what is known about a call result or a parameter applies
+		if u, ok := rv.(*ssa.UnOp); ok && u.Op == token.MUL {
+			switch u.X.(type) {
+			case *ssa.Alloc, *ssa.FreeVar:
+				if cv := cellValue(u.X); cv != nil {
+					if ci, ok := cv.(ssa.Instruction); ok && ci.Parent() == p.fn {
+						rv = p.resolve(cv)
+					} else if cp, ok := cv.(*ssa.Parameter); ok && cp.Parent() == p.fn {
+						rv = cv
+					}
+				}
+			}
+		}
 		if isIntType(rv.Type()) {
-			ti.ints[p.canon(rv)] = rv
+			if old, has := ti.ints[p.canon(rv)]; !has || isCellLoad(old) {
+				ti.ints[p.canon(rv)] = rv
+			}
 		}
 		switch rv.Type().Underlying().(type) {
 		case *types.Slice, *types.Basic:
@@ -865,6 +897,9 @@ func (p *prover) factsAt(at ssa.Instruction, goal constraint, extra []constraint
 			}
 			seen[t] = true
 			added = true
+			if strings.HasPrefix(t, "cap:") {
+				facts = append(facts, p.capturedFacts(t)...)
+			}
 			if v, ok := ti.lens[t]; ok {
 				lb, _ := p.lowerBoundLen(v, 0)
 				if lb >= 1<<40 {
@@ -1024,4 +1059,69 @@ func (p *prover) spillOf(al *ssa.Alloc) *ssa.Parameter {
 		}
 	}
 	return par
+}
+
+func isCellLoad(v ssa.Value) bool {
+	u, ok := v.(*ssa.UnOp)
+	if !ok || u.Op != token.MUL {
+		return false
+	}
+	switch u.X.(type) {
+	case *ssa.Alloc, *ssa.FreeVar:
+		return true
+	}
+	return false
+}
+
+// capturedFacts: what the enclosing function knows, where it makes this closure, about a once-assigned variable
+// the closure captures (term "cap:<name>"): the variable never changes, so a bound proved there holds whenever the
+// closure runs.
+func (p *prover) capturedFacts(t string) []constraint {
+	key := "capfacts:" + t
+	if c, ok := p.relCache[key]; ok {
+		return c
+	}
+	p.relCache[key] = nil
+	parent := p.fn.Parent()
+	if parent == nil {
+		return nil
+	}
+	var fv *ssa.FreeVar
+	for _, f := range p.fn.FreeVars {
+		if "cap:"+f.Name() == t {
+			fv = f
+		}
+	}
+	if fv == nil {
+		return nil
+	}
+	cv := cellValue(fv)
+	if cv == nil || !isIntType(cv.Type()) {
+		return nil
+	}
+	var site ssa.Instruction
+	n := 0
+	eachInstr(parent, func(in ssa.Instruction) {
+		if mc, ok := in.(*ssa.MakeClosure); ok && mc.Fn == ssa.Value(p.fn) {
+			site = in
+			n++
+		}
+	})
+	if n != 1 {
+		return nil
+	}
+	ci, isI := cv.(ssa.Instruction)
+	if (isI && ci.Parent() != parent) || (!isI && cv.Parent() != parent) {
+		return nil // assigned further out: not followed
+	}
+	pp := p.ix.proverFor(parent)
+	var out []constraint
+	for _, k := range []int64{1, 0} {
+		if ok, _ := pp.prove(leq(linConst(k), pp.linOf(cv), "bound of a captured variable"), site, nil, 1); ok {
+			out = append(out, leq(linConst(k), linTerm(t), fmt.Sprintf("the captured variable is >= %d where the closure is made, and is never assigned again", k)))
+			break
+		}
+	}
+	p.relCache[key] = out
+	return out
 }
